@@ -1,10 +1,11 @@
-(* C04 - the class of the loaded object is the one its content implies; kinds outside a format's vocabulary are
-   absent from what a file of that format gives back; witnesses (non-vacuity, and the refutation for hexahedra in
-   geogram_ascii). *)
+(* C04 - class of the loaded object, vocabulary corollary, extension dispatch, ignore_elements, witnesses (non-vacuity)
+   and the _refuted witnesses of the known findings; statement lemmas exported to Props.v. *)
+
+
 From Coq Require Import ZArith Bool String Ascii Lia.
 From Coq Require Import List.
 Import ListNotations.
-Require Import MV.Lib.Base MV.C04.Gen MV.C04.Model MV.C04.Geo MV.C04.Stl MV.C04.Ref MV.C04.Run MV.C04.Proofs_Text MV.C04.Proofs_Geo.
+Require Import MV.Lib.Base MV.C04.Gen MV.C04.Model MV.C04.Geo MV.C04.Stl MV.C04.Ref MV.C04.GeoRef MV.C04.Run MV.C04.Proofs_Text MV.C04.Proofs_Ref MV.C04.Proofs_Geo MV.C04.Proofs_GeoRef.
 Open Scope list_scope.
 Open Scope Z_scope.
 
@@ -69,31 +70,47 @@ Proof. repeat constructor; unfold zlen; cbn; lia. Qed.
 Example ex_obj_ref_ok : obj_ref_ok Z (Z * Z) [(0, 1); (1, 2)] ex_mesh.
 Proof. split; repeat constructor; cbn; lia. Qed.
 
-Lemma clean_cbn s : (forallb (fun c => negb (Ascii.eqb c dquote)) (list_ascii_of_string s) = true) -> clean s.
+Example ex_geo_ok : geo_ok Z (Z * Z) zenc_n ex_mesh.
 Proof.
-  intros H c Hc E. rewrite forallb_forall in H. specialize (H c Hc). subst c. rewrite Ascii.eqb_refl in H. discriminate.
-Qed.
-
-Example ex_geo_ok : geo_ok Z Z (Z * Z) (Z * Z) ex_mesh.
-Proof.
-  assert (Hw : attr_ok Z Z (Z * Z) (Z * Z) ex_attr_w).
-  { split; [apply clean_cbn; reflexivity|]. split.
+  assert (Hw : attr_ok Z (Z * Z) zenc_n ex_attr_w).
+  { split.
     - unfold reserved. cbn. intros H. repeat (destruct H as [H|H]); try discriminate H; try contradiction.
-    - split; [reflexivity|]. split; [cbn; lia|]. repeat constructor. }
-  assert (Hl : attr_ok Z Z (Z * Z) (Z * Z) ex_attr_l).
-  { split; [apply clean_cbn; reflexivity|]. split.
+    - split; [cbn; lia|]. repeat constructor. }
+  assert (Hl : attr_ok Z (Z * Z) zenc_n ex_attr_l).
+  { split.
     - unfold reserved. cbn. intros H. repeat (destruct H as [H|H]); try discriminate H; try contradiction.
-    - split; [reflexivity|]. split; [cbn; lia|]. repeat constructor. }
+    - split; [cbn; lia|]. repeat constructor. }
   unfold geo_ok, attrs_ok. cbn [ex_mesh zmkmesh aV aE aF aFC aC aCC aCF mC map].
   repeat split;
     try match goal with
-        | |- Forall (attr_ok _ _ _ _) [_] => constructor; [assumption|constructor]
+        | |- Forall (attr_ok _ _ _) [_] => constructor; [assumption|constructor]
         | |- Forall _ [] => constructor
         | |- NoDup _ => repeat constructor; cbn; intuition discriminate
         | |- ~ In _ _ => cbn; intuition discriminate
         | |- Forall _ [_] => repeat constructor
         end.
 Qed.
+
+Example ex_geo_sizes_ok : geo_sizes_ok Z (Z * Z) ex_mesh.
+Proof.
+  unfold geo_sizes_ok. cbn [ex_mesh zmkmesh aV aE aF aFC aC aCC aCF mV mE mF mC mAdj].
+  repeat split; try (repeat constructor; cbn; lia); try reflexivity.
+Qed.
+
+(* string values and attribute names with the characters the file format itself uses: #, blanks at the ends, line break,
+   double quote, chunk keyword, the empty string - percent-encoded on export, they come back *)
+Definition ex_nl : string := String (ascii_of_N 10) EmptyString.
+Definition ex_str_mesh : zmesh :=
+  zmkmesh [(0, 0, 0); (4607182418800017408, 0, 0); (0, 4607182418800017408, 0); (0, 0, 0); (0, 0, 0)] [] None [[0; 1; 2]] []
+          [zmkattr ("na#me ""q""" ++ ex_nl ++ "[ATTS]") TyString 1 [vS "a#b"; vS " lead "; vS ("x" ++ ex_nl ++ "y"); vS "[ATTR]"; vS ""]]
+          [] [] [] [] [] [] [].
+Example ex_str_roundtrip : check_roundtrip (Fgeo, default_sw, ex_str_mesh) = true.
+Proof. vm_compute. reflexivity. Qed.
+Example ex_pct_roundtrip :
+  forallb (fun s => String.eqb (pct_decode (zenc_s s)) s && String.eqb (pct_decode (zenc_n s)) s
+                    && negb (@Geo.is_chunk_header Z (Z * Z) (TWord (zenc_s s))) && negb (@Geo.is_chunk_header Z (Z * Z) (TWord (qs (zenc_n s)))))
+          ["a#b"; " lead "; "x" ++ ex_nl ++ "y"; "[ATTR]"; "[HEAD]"; ""; "100%"; "%41"; "a""b"; "tab" ++ String (ascii_of_N 9) ""]%string = true.
+Proof. vm_compute. reflexivity. Qed.
 
 (* the model's own round trips on the witness, evaluated *)
 Example ex_roundtrips :
@@ -137,3 +154,102 @@ Definition ex_medit_dim2 : list zline :=
 Lemma medit_dimension2_refuted :
   exists r, parse_fmt Fmedit ex_medit_dim2 = Some r /\ rV r = [[0; 0; 4619567317775286272]].
 Proof. eexists. split; vm_compute; reflexivity. Qed.
+
+(* REFUTED (known finding geogram_ascii/attribute-name/reserved-by-the-format): a user attribute whose name is one the format
+   gives a meaning to ("point" on the vertices) is read back as geometry: the vertices are doubled and the attribute lost *)
+Definition ex_point_mesh : zmesh :=
+  zmkmesh [(0, 0, 0); (4607182418800017408, 0, 0)] [] None [] []
+          [zmkattr "point" TyFloat 3 [Run.vF 0; Run.vF 0; Run.vF 0; Run.vF 0; Run.vF 0; Run.vF 0]] [] [] [] [] [] [] [].
+Lemma geogram_reserved_name_refuted :
+  exists r, parse_fmt Fgeo (map (fun t => [t]) (zprint_geo ex_point_mesh)) = Some r
+            /\ length (rV r) = 4%nat /\ rAV r = [] /\ oraw_eqb (Some r) (vocab_fmt Fgeo default_sw ex_point_mesh) = false.
+Proof. eexists. split; [vm_compute; reflexivity|]. repeat split. Qed.
+
+(* REFUTED (known finding stl/quad-faces/written-as-two-triangles): STL has no quads; a quad is not left out but written as the
+   two triangles (p0,p1,p2), (p2,p3,p0): an element kind the format cannot express is turned into something else *)
+Definition ex_quad_smesh : smesh :=
+  szmkmesh [((0, 0), (0, 0), (0, 0)); ((4607182418800017408, 1065353216), (0, 0), (0, 0));
+            ((4607182418800017408, 1065353216), (4607182418800017408, 1065353216), (0, 0)); ((0, 0), (4607182418800017408, 1065353216), (0, 0))]
+           [] None [[0; 1; 2; 3]] [] [] [] [] [] [] [] [] [].
+Lemma stl_quad_refuted :
+  exists L S, zprint_stl ex_quad_smesh = Some L /\ @ref_parse_stl Z L = Some S /\ length S = 2%nat /\ Forall (fun t => length t = 3%nat) S.
+Proof. do 2 eexists. split; [vm_compute; reflexivity|]. split; [vm_compute; reflexivity|]. split; [reflexivity|repeat constructor]. Qed.
+
+(* ------------------------------------------------------------------ statements exported to Props.v *)
+Section Statements.
+Variables F Ftxt Cx Ctxt : Type.
+Variable pf : F -> Ftxt.
+Variable rf : Ftxt -> F.
+Variable f_of_int : Z -> F.
+Hypothesis rf_pf : forall x, rf (pf x) = x.
+
+Lemma roundtrip_xyz_stmt (m : mesh F Cx) L : no_xyz_attrs m ->
+  @print_xyz F Ftxt Cx Ctxt pf m = Some L -> @parse_xyz F Ftxt Cx Ctxt rf f_of_int L = Some (vocab_xyz m).
+Proof. intros _. now apply xyz_roundtrip. Qed.
+
+Lemma roundtrip_obj_stmt sw (m : mesh F Cx) L : no_obj_attrs m ->
+  @print_obj F Ftxt Cx Ctxt pf sw m = Some L -> @parse_obj F Ftxt Cx Ctxt rf f_of_int L = vocab_obj sw m.
+Proof. intros _. now apply obj_roundtrip. Qed.
+
+Lemma interop_xyz_stmt (m : mesh F Cx) : no_xyz_attrs m ->
+  (forall L, @print_xyz F Ftxt Cx Ctxt pf m = Some L -> @ref_parse_xyz F Ftxt Cx Ctxt rf f_of_int L = Some (vocab_xyz m))
+  /\ @parse_xyz F Ftxt Cx Ctxt rf f_of_int (@ref_print_xyz F Ftxt Cx Ctxt pf m) = Some (vocab_xyz m).
+Proof. intros _. split; [intros; eapply xyz_ref_reads; eassumption | now apply xyz_loads_ref]. Qed.
+
+Lemma interop_obj_stmt sw (m : mesh F Cx) : no_obj_attrs m ->
+  (forall L el, obj_exported_edges sw m = Some el -> @obj_ref_ok F Cx el m -> @print_obj F Ftxt Cx Ctxt pf sw m = Some L ->
+     @ref_parse_obj F Ftxt Cx Ctxt rf f_of_int L = Some (raw_of Cx (map (@v3 F) (mV m)) (map e2 el) (mF m) []))
+  /\ @parse_obj F Ftxt Cx Ctxt rf f_of_int (@ref_print_obj F Ftxt Cx Ctxt pf m)
+     = Some (raw_of Cx (map (@v3 F) (mV m)) (map (fun e => keyify2 (fst e) (snd e)) (mE m)) (mF m) []).
+Proof. intros _. split; [intros; eapply obj_ref_reads; eassumption | now apply obj_loads_ref]. Qed.
+
+Lemma interop_off_stmt (m : mesh F Cx) :
+  @ref_parse_off F Ftxt Cx Ctxt rf f_of_int (concat (print_off Ctxt pf m)) = Some (vocab_off m)
+  /\ (off_ok m -> @parse_off F Ftxt Cx Ctxt rf f_of_int (@ref_print_off F Ftxt Cx Ctxt pf m) = Some (vocab_off m)).
+Proof. split; [now apply off_ref_reads | now apply off_loads_ref]. Qed.
+
+Lemma interop_tet_stmt (m : mesh F Cx) :
+  @ref_parse_tet F Ftxt Cx Ctxt rf f_of_int (concat (print_tet Ctxt pf m)) = Some (vocab_tet m)
+  /\ @parse_tet F Ftxt Cx Ctxt rf f_of_int (@ref_print_tet F Ftxt Cx Ctxt pf m) = Some (vocab_tet m).
+Proof. split; [now apply tet_ref_reads | now apply tet_loads_ref]. Qed.
+
+Lemma interop_medit_stmt (m : mesh F Cx) :
+  (forall L, @print_medit F Ftxt Cx Ctxt pf m = Some L ->
+     option_map Some (@ref_parse_medit F Ftxt Cx Ctxt rf f_of_int (concat L)) = Some (vocab_medit m))
+  /\ @parse_medit F Ftxt Cx Ctxt rf f_of_int (@ref_print_medit F Ftxt Cx Ctxt pf m)
+     = Some (raw_of Cx (map (@v3 F) (mV m)) (map e2 (mE m))
+               (filter (len_is 3) (mF m) ++ filter (len_is 4) (mF m)) (filter (len_is 4) (mC m) ++ filter (len_is 8) (mC m))).
+Proof. split; [intros L HL; now apply (medit_ref_reads F Ftxt Cx Ctxt pf rf f_of_int rf_pf m L) | now apply medit_loads_ref]. Qed.
+End Statements.
+
+Lemma attributes_geogram_stmt (F Cx : Type) (f_of_int : Z -> F) (cx_of_f : F -> Cx)
+    (f_is_zero : F -> bool) (c_is_zero : Cx -> bool) (a : attr F Cx) (n : nat) :
+  1 <= a_ar a -> length (a_vals a) = (n * Z.to_nat (a_ar a))%nat ->
+  (a_ar a = 1 -> Forall (fun v => @not_default F Cx f_is_zero c_is_zero v = false -> v = @ty_default F Cx f_of_int cx_of_f (a_ty a)) (a_vals a)) ->
+  @dense_of F Cx f_of_int cx_of_f (Z.of_nat n) (@sparse_of F Cx f_is_zero c_is_zero a) = a_vals a
+  /\ s_name (@sparse_of F Cx f_is_zero c_is_zero a) = a_name a
+  /\ s_ty (@sparse_of F Cx f_is_zero c_is_zero a) = a_ty a /\ s_ar (@sparse_of F Cx f_is_zero c_is_zero a) = a_ar a.
+Proof. intros H1 H2 H3. split; [now apply geo_attr_dense | repeat split]. Qed.
+
+(* io.py: every writable / readable extension of the model is dispatched to the codec the model describes *)
+Lemma dispatch_all : forall f, dispatch_ok f = true.
+Proof. intros []; vm_compute; reflexivity. Qed.
+
+(* save(ignore_elements=...): the named kinds are absent from what is written, nothing else changes *)
+Lemma existsb_eqb_In (k : string) (l : list string) : In k l -> existsb (String.eqb k) l = true.
+Proof. intros H. apply existsb_exists. exists k. split; [assumption|apply String.eqb_refl]. Qed.
+Lemma ignore_elements_stmt (F Cx : Type) (sw : switches) (m : mesh F Cx) :
+  (In "edges"%string (sw_ignore sw) -> mE (apply_ignore sw m) = [] /\ mHard (apply_ignore sw m) = None /\ aE (apply_ignore sw m) = [])
+  /\ (In "faces"%string (sw_ignore sw) -> mF (apply_ignore sw m) = [] /\ aF (apply_ignore sw m) = [] /\ aFC (apply_ignore sw m) = [])
+  /\ (In "cells"%string (sw_ignore sw) -> mC (apply_ignore sw m) = [] /\ aC (apply_ignore sw m) = [] /\ aCC (apply_ignore sw m) = []
+                                         /\ aCF (apply_ignore sw m) = [])
+  /\ mV (apply_ignore sw m) = mV m /\ aV (apply_ignore sw m) = aV m
+  /\ (sw_ignore sw = [] -> apply_ignore sw m = m).
+Proof.
+  unfold apply_ignore, ignored, save_ignore_table. cbn [existsb fst snd mE mHard aE mF aF aFC mC aC aCC aCF mV aV].
+  repeat split;
+    try match goal with H : In _ (sw_ignore sw) |- _ => rewrite (existsb_eqb_In _ _ H) end;
+    try (cbn [String.eqb Ascii.eqb Bool.eqb andb orb]; rewrite ?andb_false_r, ?andb_true_r, ?orb_false_r, ?orb_true_r;
+         cbn [andb orb]; rewrite ?orb_true_r; reflexivity).
+  - intros ->. cbn. now destruct m.
+Qed.
